@@ -109,6 +109,15 @@ def build_group(case):
     if case["route"] == "matrix":
         data = [list(r) for r in M] if case["form"] == "list" else np.array(M)
         G = CoxeterGroup(matrix=data, generator_style=case["style"])
+        # the caller re-uses its array afterwards (e.g. one work buffer for a family of
+        # groups): the group must not keep reading labels through an alias
+        if isinstance(data, np.ndarray):
+            data[...] = 2
+            np.fill_diagonal(data, 1)
+        else:
+            for r in data:
+                for jj in range(len(r)):
+                    r[jj] = 2
         names = (["abcdefgh"[i] for i in range(n)] if case["style"] == "alpha"
                  else ["s%d" % i for i in range(n)])
         return G, names
